@@ -150,7 +150,8 @@ def check_case(acc, tspec, tmodel, names, code=None):
 
     def bad(kind, detail, **kw):
         acc.outcome(kind)
-        acc.disagree(kind, case, detail, sig=f"{kind}|{shape}", shape=shape, **{k: str(v) for k, v in kw.items()})
+        coarse = "+".join(sorted({f.split("-in-")[0].split("@")[0] for f in shape.split(",")}))
+        acc.disagree(kind, case, detail, sig=f"{kind}|{coarse}", shape=shape, **{k: str(v) for k, v in kw.items()})
 
     if got[0] == "timeout":
         return bad("qq-eval-nontermination", "evaluation did not return within 10 s")
